@@ -66,7 +66,7 @@ func c06WalkHeaders(h *Headers) {
 func c06Feature() int {
 	f := vChoose("feature", nLayerFeatures)
 	if vTier() == 0 {
-		vAssume(f == 0 || f == 2 || f == 4 || f == 8 || f == 9)
+		vAssume(f == 0 || f == 2 || f == 4 || f == 8 || f == 9 || f == 11)
 	}
 	return f
 }
@@ -380,16 +380,14 @@ func mkConfKeyTree(name string, fp *faultPlan) *vNodeT {
 	if fp.budget == 0 && !keyTreeNoVary {
 		vary = vChoose(name+".vary", 5) // 0 none, 1 x, 2 y, 3 d, 4 curve value
 	}
-	oddLen := 0
-	if vary >= 1 && vary <= 3 {
-		oddLen = []int{0, 1, 31, 33, 47, 49, 65, 67}[vChoose(name+".oddlen", 8)]
-	}
+	okp := false
 	bs := func(s string, n int, which int) func() *vNodeT {
 		return func() *vNodeT {
-			if vary == which {
-				n = oddLen
+			lo, hi := n, n
+			if vary == which || (vary == 4 && okp) { // for OKP keys the size goes with the curve: vary both together
+				lo, hi = 0, 70 // the varied coordinate has any length (all the sizes of RFC 9053 section 7 and their neighbours)
 			}
-			b := vBlobN(name+"."+s, n, n)
+			b := vBlobN(name+"."+s, lo, hi)
 			return nnBstr(b, vWidth(name+"."+s+".w", uint64(len(b))))
 		}
 	}
@@ -404,15 +402,28 @@ func mkConfKeyTree(name string, fp *faultPlan) *vNodeT {
 		}
 	}
 	kty := vChoose(name+".kty", 5)
+	okp = kty == 3
 	switch kty {
 	case 0, 1, 2: // EC2 P-256 / P-384 / P-521
 		size := []int{32, 48, 66}[kty]
 		add(0, 1, u(2))
 		add(1, 0, crvNode(uint64(kty+1)))
-		add(1, 1, bs("x", size, 1))
-		add(1, 2, bs("y", size, 2))
-		if vChoose(name+".priv", 2) == 1 {
-			add(1, 3, bs("d", size, 3))
+		if keyTreeGenuine && vary == 0 {
+			// a genuine key pair, so that what the model concludes about signers / verifiers can be replayed natively
+			sk := vECKeyValid(name+".ec", vCurveByIndex(kty))
+			vAssume(vOnCurve(&sk.PublicKey))
+			fixed := func(b []byte) func() *vNodeT { return func() *vNodeT { return nnBstr(b, -1) } }
+			add(1, 1, fixed(sk.X.FillBytes(make([]byte, size))))
+			add(1, 2, fixed(sk.Y.FillBytes(make([]byte, size))))
+			if vChoose(name+".priv", 2) == 1 {
+				add(1, 3, fixed(sk.D.FillBytes(make([]byte, size))))
+			}
+		} else {
+			add(1, 1, bs("x", size, 1))
+			add(1, 2, bs("y", size, 2))
+			if vChoose(name+".priv", 2) == 1 {
+				add(1, 3, bs("d", size, 3))
+			}
 		}
 	case 3: // OKP Ed25519
 		add(0, 1, u(1))
@@ -449,6 +460,7 @@ func mkConfKeyTree(name string, fp *faultPlan) *vNodeT {
 }
 
 var keyTreeNoVary bool
+var keyTreeGenuine bool
 
 func H_C06_key_faulted() {
 	fp := mkFaultPlan(vChoose("budget", c05Budget()+1))
